@@ -212,7 +212,7 @@ for _n in ['parse_flow_sequence_entry', 'parse_flow_mapping_key']:
              requires=REQ + [pst(_n)], result='obj:yaml.events.Event', ensures=ENS, labels=LBL, modifies=MOD, raises=RAISES)
 
 # parse_node: the three node states share it; `block`/`indentless_sequence` are the literal flags they pass
-contract(P + 'parse_node', props=['C03', 'C09', 'C12'], axioms=[state_tables], tier='thorough', params={'block': 'bool', 'indentless_sequence': 'bool'}, max_paths=40,
+contract(P + 'parse_node', props=['C09'], axioms=[state_tables], tier='thorough', params={'block': 'bool', 'indentless_sequence': 'bool'}, max_paths=40,
          requires=REQ + [pst('parse_block_node')],
          result='obj:yaml.events.NodeEvent',
          ensures=ENS + [
